@@ -257,6 +257,8 @@ def snapshot(obj):
             out[k] = (tuple(v.shape), str(v.dtype), list(v.c.reshape(-1)))
         elif isinstance(v, (int, float, bool)) or v is None:
             out[k] = v
+        elif isinstance(v, tuple) and all(isinstance(e, (int, rnp.integer)) for e in v):
+            out[k] = ('plain-tuple', tuple(int(e) for e in v))          # shapes kept by the object (e.g. _origin_shape)
     return out
 
 
@@ -268,6 +270,10 @@ def same_snapshot(a, b):
             bad.append(k)
             continue
         va, vb = a[k], b[k]
+        if (isinstance(va, tuple) and va and va[0] == 'plain-tuple') or (isinstance(vb, tuple) and vb and vb[0] == 'plain-tuple'):
+            if va != vb:
+                bad.append(k)
+            continue
         if isinstance(va, tuple) and isinstance(vb, tuple):
             if va[0] != vb[0] or va[1] != vb[1] or len(va[2]) != len(vb[2]):
                 bad.append(k)
